@@ -270,3 +270,103 @@ theorem all_zipWith {α β : Type} (p : α → β → Bool) (as : List α) (bs :
         ih bs (fun a' ha' b' hb' => h a' (List.mem_cons_of_mem _ ha') b' (List.mem_cons_of_mem _ hb'))⟩
 
 end GV.C14
+
+namespace GV.C14
+open GV GV.C02
+
+/-! ### Spaces built with `add_variable`; the capability check -/
+
+theorem boundedOk_empty : boundedOk DS.empty = true := by simp [boundedOk, DS.empty]
+
+/-- What `add_variable` checks (`boundsOk`, `intBoundsOk`) + finite bounds = a fillable variable. -/
+theorem varOk_of_add (v : Var) (hb : boundsOk v.lb v.ub = true)
+    (hi : (intBoundsOk v.isInt v.lb && intBoundsOk v.isInt v.ub) = true)
+    (hfin : ∀ b ∈ v.lb ++ v.ub, b.isSome = true) :
+    (v.lb.length == v.ub.length && (varComps v).all compOk) = true := by
+  simp only [boundsOk, Bool.and_eq_true, beq_iff_eq, decide_eq_true_eq, List.all_eq_true] at hb
+  obtain ⟨⟨hlen, _⟩, hord⟩ := hb
+  simp only [Bool.and_eq_true] at hi
+  obtain ⟨hil, hiu⟩ := hi
+  simp only [Bool.and_eq_true, beq_iff_eq, List.all_eq_true]
+  refine ⟨hlen, ?_⟩
+  intro c hc
+  simp only [varComps, zipWith_eq_map_zip', List.mem_map] at hc
+  obtain ⟨p, hp, rfl⟩ := hc
+  have hp1 : p.1 ∈ v.lb := (List.of_mem_zip hp).1
+  have hp2 : p.2 ∈ v.ub := (List.of_mem_zip hp).2
+  have hs1 := hfin p.1 (List.mem_append_left _ hp1)
+  have hs2 := hfin p.2 (List.mem_append_right _ hp2)
+  obtain ⟨l, hl⟩ := Option.isSome_iff_exists.mp hs1
+  obtain ⟨u, hu⟩ := Option.isSome_iff_exists.mp hs2
+  have ho := hord p hp
+  simp only [hl, hu, decide_eq_true_eq] at ho
+  simp only [compOk, hl, hu, Bool.and_eq_true, decide_eq_true_eq, Bool.or_eq_true, Bool.not_eq_true']
+  refine ⟨ho, ?_⟩
+  cases hb : v.isInt with
+  | false => exact Or.inl rfl
+  | true =>
+    right
+    simp only [intBoundsOk, hb, Bool.not_true, Bool.false_or, List.all_eq_true] at hil hiu
+    have h1 := hil p.1 hp1
+    have h2 := hiu p.2 hp2
+    simp only [hl] at h1
+    simp only [hu] at h2
+    exact ⟨h1, h2⟩
+
+/-- `add_variable` of a variable with finite bounds keeps the space fillable. -/
+theorem boundedOk_addVariable (d d' : DS) (tol : Rat) (v : Var) (hd : boundedOk d = true)
+    (hfin : ∀ b ∈ v.lb ++ v.ub, b.isSome = true) (h : d.addVariable tol v = some d') :
+    boundedOk d' = true := by
+  unfold DS.addVariable at h
+  split_ifs at h with h1 h2 h3
+  have hb : boundsOk v.lb v.ub = true := by simpa using h2
+  have hi : (intBoundsOk v.isInt v.lb && intBoundsOk v.isInt v.ub) = true := by simpa using h3
+  have hv := varOk_of_add v hb hi hfin
+  have key : boundedOk { d with vars := d.vars ++ [v] } = true := by
+    simp only [boundedOk, List.all_append, List.all_cons, List.all_nil, Bool.and_true, Bool.and_eq_true]
+    exact ⟨by simpa [boundedOk] using hd, by simpa using hv⟩
+  cases hval : v.value with
+  | none =>
+    simp only [hval, Option.some.injEq] at h
+    rw [← h]; exact key
+  | some x =>
+    simp only [hval] at h
+    split_ifs at h
+    simp only [Option.some.injEq] at h
+    rw [← h]; exact key
+
+/-- Every space obtained from the empty one by successful `add_variable` calls with finite bounds
+    is a bounded design space in the sense of the property. -/
+theorem boundedOk_of_adds (tol : Rat) (vs : List Var) (hfin : ∀ v ∈ vs, ∀ b ∈ v.lb ++ v.ub, b.isSome = true) :
+    ∀ (d d' : DS), boundedOk d = true → d.extend tol vs = some d' → boundedOk d' = true := by
+  induction vs with
+  | nil =>
+    intro d d' hd h
+    simp only [DS.extend, List.foldlM_nil, Option.pure_def, Option.some.injEq] at h
+    rw [← h]; exact hd
+  | cons v vs ih =>
+    intro d d' hd h
+    simp only [DS.extend, List.foldlM_cons, Option.bind_eq_bind] at h
+    cases h1 : d.addVariable tol v with
+    | none => simp [h1] at h
+    | some d1 =>
+      simp only [h1, Option.bind_some] at h
+      exact ih (fun w hw => hfin w (List.mem_cons_of_mem _ hw)) d1 d'
+        (boundedOk_addVariable d d1 tol v hd (hfin v (by simp)) h1) h
+
+theorem falseIdxAux_nil (l : List Bool) (i : Nat) : falseIdxAux l i = [] ↔ ∀ b ∈ l, b = true := by
+  induction l generalizing i with
+  | nil => simp [falseIdxAux]
+  | cons b bs ih =>
+    cases b with
+    | true => simp [falseIdxAux, ih]
+    | false => simp [falseIdxAux]
+
+/-- **The capability check** passes exactly when every component has two finite bounds. -/
+theorem capability_check_iff (d : DS) :
+    unboundedComponents d = [] ↔ ∀ c ∈ comps d, c.2.1.isSome = true ∧ c.2.2.isSome = true := by
+  unfold unboundedComponents
+  rw [falseIdxAux_nil, normMask_eq]
+  simp only [List.mem_map, forall_exists_index, and_imp, forall_apply_eq_imp_iff₂, Bool.and_eq_true]
+
+end GV.C14
